@@ -8,17 +8,20 @@ LEAN_MODULES = ["RtoscModel.Props.C11"]
 _NS = "Rtosc.Pretty.C11."
 THEOREMS = [_NS + t for t in (
     # the four clauses, proved part: sentences of any length whose values are scalars in a proved spelling
-    # (Tok.proved), under every layout (white space / line breaks / comment lines anywhere between values)
+    # (Tok.proved), arrays of such values (nested), nxA of a scalar or array — under every layout
     "checker_scanner_agree_partial", "scan_denotes_partial", "whitespace_comment_invariance_partial",
     "whitespace_comment_invariance_partial'", "print_scan_fixpoint_partial",
-    # the statement they all rest on, and the list loops over arbitrary gaps
-    "reads_plain", "countPrintedArgVals_lay", "scanArgVals_lay", "countPrintedArgVals_empty", "scanArgVals_empty",
-    # per-token agreement for every proved spelling of the specification; printing of the scanned values
-    "valOK_tok", "printsVal_tok", "printArgVals_lay",
+    # the statements they rest on, and the list loops over arbitrary gaps
+    "reads_proved", "reads_plain", "countPrintedArgVals_lay", "scanArgVals_lay", "countPrintedArgVals_empty",
+    "scanArgVals_empty",
+    # per-construct agreement: every proved scalar spelling, nxA, arrays; every value built from them
+    "valOK_tok", "Arg11.rep", "arg11_array", "SVal.proved.arg11", "cells_proved",
+    # printing of the scanned scalar values
+    "printsVal_tok", "printArgVals_lay",
     # known finding C11-K1: the full statement fails on "077"; the proved part lies outside the trigger
-    "scan_denotes_counterexample", "plain_not_K1",
-    # non-vacuity: a sentence with one value of every proved construct under a messy layout
-    "exPlain")]
+    "scan_denotes_counterexample", "proved_not_K1",
+    # non-vacuity: sentences with one value of every proved construct under a messy layout
+    "exPlain", "exProved")]
 HARNESS = {"src": ["scan.cpp"]}
 RULE = ("each case: one text generated constructively from the grammar of doc/Guide.adoc, section 'Pretty-printing "
         "Messages' (0..10 values: integers in decimal/hex/octal with and without the i/h suffix, floats and doubles in "
@@ -33,16 +36,21 @@ ASSUMPTIONS = [
     "the fix patches fixes/C11-01 … C11-05 are applied to the tree (on top of fixes/C10-*.patch): leading white space / "
     "comments in rtosc_scan_arg_vals, numeric test for open-ended ranges in the scanner, no scan of a non-numeric left "
     "neighbour in the checker, no left neighbour taken from inside a preceding array, nearest step count for float ranges",
-    "proved (Lean, no bound on the number of values, gaps or characters): all four clauses for sentences whose values are "
-    "scalars in these spellings: decimal 'i' (no suffix) and 'h' integers, characters raw or escaped (incl. '\\0'), strings "
-    "and quoted symbols of one part with every escape sequence, identifiers, true/false/nil/inf/now/immediately, colours "
-    "(lower-case digits), MIDI and blobs (in the printer's spacing; any white space between the bytes of a blob) — under "
+    "proved (Lean, no bound on the number of values, nesting depth, gaps or characters): checker_scanner_agree, "
+    "scan_denotes and whitespace_comment_invariance for sentences whose values are built from: scalars in the "
+    "spellings 'i' integers in decimal (with and without the suffix i) and hexadecimal (0x2a, -0x2a, 0x2A, two's "
+    "complement 0xffffffd6), decimal 'h' integers, characters raw or escaped (incl. '\\0'), "
+    "strings and quoted symbols with every escape sequence and any concatenation of parts, identifiers, "
+    "true/false/nil/inf/now/immediately, colours (lower-case digits), MIDI and blobs (in the printer's spacing; any "
+    "white space between the bytes of a blob); arrays without open end of such values of one type, nested to any "
+    "depth, with any white space between the elements; nxA (1 <= n <= 2^31-1) of a scalar or an array — under "
     "EVERY layout of white space, line breaks and '%' comment lines in front of, between and behind the values; "
-    "print_scan_fixpoint additionally assumes that the printer does not compress (no five values of one type in a row)",
-    "NOT proved, covered by exact model/implementation correspondence and the oracle on the implementation only: hex and "
-    "octal integers and the i suffix, floats and doubles in every notation (point, exponent, suffix, hex, exact value in "
-    "parentheses), strings concatenated from several parts, upper-case colours, other spacings inside MIDI, nxA, "
-    "'a b ... c' ranges of every type (integer and float), arrays with and without an open end",
+    "print_scan_fixpoint for sentences of scalars only, assuming that the printer does not compress (no five "
+    "values of one type in a row)",
+    "NOT proved, covered by exact model/implementation correspondence and the oracle on the implementation only: octal "
+    "integers, hexadecimal integers with a suffix or of type 'h', floats and doubles in every notation (point, exponent, suffix, hex, exact value in "
+    "parentheses), upper-case colours, other spacings inside MIDI, 'a b ... c' ranges of every type (integer and "
+    "float) at top level and in arrays, arrays with an open end; print_scan_fixpoint for arrays, nxA and compressed runs",
     "known finding C11-K1: an unsuffixed integer literal with a leading zero is read as decimal although the manual "
     "promises C99 (octal) reading and the suffixed forms are read as octal; the model mirrors it, Lean proves the "
     "counterexample, the run attributes an input to it only when the trigger holds, implementation = model, and every "
@@ -64,16 +72,17 @@ TRUSTED = [
     "C16's cell type, Item/flatList and comparison model RtoscModel/ArgVal/*.lean (imported)",
 ]
 LEVEL_TEXT = ("Lean theorems over an executable model of checker, scanner and printer: for sentences of ANY length whose values "
-              "are scalars in the proved spellings (decimal i/h integers, characters, one-part strings and quoted symbols with "
-              "all escapes, identifiers, keywords, colours, MIDI, blobs) and EVERY layout of white space, line breaks and "
-              "comment lines, the checker's count equals the number of cells the scanner writes, the whole text is consumed, "
-              "the cells are the denotation, two layouts scan to the same cells, and print-then-scan is the identity on the "
-              "scanned cells (induction over the token list, no size bound). All other constructs of the grammar (other numeric "
-              "spellings, floats, concatenated strings, nxA, ranges, arrays) are checked by exact model/implementation "
-              "correspondence on generated sentences and by an independent reference reader of the manual evaluated on the "
-              "implementation's output, not proved. One known finding (C11-K1, octal read as decimal) with a proved "
-              "counterexample")
-LEVEL_NOTE = "partial: scalars in the proved spellings under all layouts are proved; numeric spellings, nxA, ranges, arrays are correspondence + oracle only"
+              "are scalars in the proved spellings (decimal and hexadecimal i integers, decimal h integers, characters, strings and quoted "
+              "symbols with all escapes and concatenations, identifiers, keywords, colours, MIDI, blobs), arrays of them "
+              "nested to any depth, and nxA of a scalar or array, and for EVERY layout of white space, line breaks and "
+              "comment lines: the checker's count equals the number of cells the scanner writes, the whole text is consumed, "
+              "the cells are the denotation, and two layouts scan to the same cells (induction over the token list and the "
+              "nesting, no size bound); for sentences of scalars print-then-scan is the identity on the scanned cells. "
+              "The remaining constructs (octal and suffixed hex integers, floats, ranges, open-ended arrays) are checked by exact "
+              "model/implementation correspondence on generated sentences and by an independent reference reader of the "
+              "manual evaluated on the implementation's output, not proved. One known finding (C11-K1, octal read as "
+              "decimal) with a proved counterexample")
+LEVEL_NOTE = "partial: scalars in the proved spellings, arrays and nxA under all layouts are proved; hex/octal/float spellings and ranges are correspondence + oracle only"
 
 # ------------------------------------------------------------------------------------
 # exact binary floating point on bit patterns (independent of the Lean model)
